@@ -46,7 +46,7 @@ func checkClientResponse(v *Verdict, p *Plan, r *RunResult, ri int, facts map[st
 
 // genBackendMisbehaviour perturbs a well-formed response script (used by C03, C09, C11).
 func genBackendMisbehaviour(c *Chooser, rp *RespPlan) string {
-	return applyBackendMisbehaviour(c, rp, Pick(c, "cut", "omit-end", "end-garbage", "cl-wrong", "cl-exact", "bare", "flag", "flag-any", "len", "status-text", "raw-garbage", "bad-ct", "cut-plus-end", "bare-any"))
+	return applyBackendMisbehaviour(c, rp, Pick(c, "cut", "omit-end", "end-garbage", "cl-wrong", "cl-exact", "bare", "flag", "flag-any", "len", "status-text", "raw-garbage", "bad-ct", "cut-plus-end", "bare-any", "after-end"))
 }
 
 func applyBackendMisbehaviour(c *Chooser, rp *RespPlan, k string) string {
@@ -58,6 +58,12 @@ func applyBackendMisbehaviour(c *Chooser, rp *RespPlan, k string) string {
 		rp.CutPlusEnd = true
 	case "omit-end":
 		rp.OmitEnd = true
+	case "after-end":
+		// the body goes on after its end-of-stream frame: a stray byte, another message, a second end
+		rp.AfterEnd = Pick(c, []byte{0}, []byte("x"), envelope(0, []byte{0x18, 0x07}), envelope(2, []byte("{}")), envelope(0x80, []byte("grpc-status: 0\r\n")), c.Bytes(c.Range(1, 12)))
+		if c.Bool() {
+			rp.WriteMode = "whole" // the end frame and what follows it arrive in one Write
+		}
 	case "end-garbage":
 		rp.EndRaw = Pick(c, []byte("{"), []byte("not json"), []byte("grpc-status 0"), []byte{0xff, 0x00}, []byte(`{"error":{"code":"nope"}}`), []byte(`{"error":17}`), []byte(""))
 	case "cl-wrong":
@@ -222,7 +228,7 @@ func init() {
 			}
 			if c.Bool() {
 				// behaviours the transcoder can answer with a valid response: nothing malformed has been forwarded yet
-				p.Note = applyBackendMisbehaviour(c, &p.RPCs[0].Backend.Resp, Pick(c, "cl-exact", "bare", "bad-ct", "omit-end", "end-garbage", "status-text", "flag", "ok-no-message"))
+				p.Note = applyBackendMisbehaviour(c, &p.RPCs[0].Backend.Resp, Pick(c, "cl-exact", "bare", "bad-ct", "omit-end", "end-garbage", "status-text", "flag", "ok-no-message", "after-end"))
 			}
 			return p
 		},
